@@ -18,7 +18,8 @@ for c in $PROPS; do
   out=$(./check $c quick 2>&1); code=$?
   printf 'CLEAN\t%s\t%s\t%s\n' "$c" "$code" "$(echo "$out" | grep -E '^  signature' | sed 's/  signature: //' | tr '\n' ';')" >> matrix.tsv
 done
-for d in seeded/*/; do
+# newest rounds first, so that a run cut short still covers the changes no earlier matrix saw
+for d in seeded/C*[gh]/ seeded/C*[ef]/ seeded/C*[cd]/ seeded/C*[ab]/ seeded/R*/; do
   m=$(basename "$d")
   ( cd "$REPO" && git apply "$V/$d/patch.diff" ) || { printf '%s\tALL\tpatch-does-not-apply\t\n' "$m" >> matrix.tsv; continue; }
   target=$(sed -n 's/.*"breaks_property": "\(C[0-9]*\)".*/\1/p' "$d/meta.json")
